@@ -145,8 +145,10 @@ func (q sreqCase) modelTok(rid int) string {
 		// with the decode error as its text - the model sees it as the decode kind
 		h = "f900"
 	}
-	return fmt.Sprintf("R:%d:%d:%d:%s:%s:%d:%s:%s:%s:%s:%s:%s:%d", q.conn, rid, q.seq, path, meth, q.ser, b(q.hb), b(q.ow),
-		q.target(), b(q.ser == 1), b(dec), h, q.a*q.effB())
+	// reflected handlers set one response metadata entry (trace-id) for even request ids, before doing anything else
+	rm := rid%2 == 0 && (q.style == "method" || q.style == "pooled" || q.style == "func" || q.style == "funcp")
+	return fmt.Sprintf("R:%d:%d:%d:%s:%s:%d:%s:%s:%s:%s:%s:%s:%d:%s", q.conn, rid, q.seq, path, meth, q.ser, b(q.hb), b(q.ow),
+		q.target(), b(q.ser == 1), b(dec), h, q.a*q.effB(), b(rm))
 }
 
 func showView(v respView, q *sreqCase, rid int) string {
@@ -164,7 +166,11 @@ func showView(v respView, q *sreqCase, rid int) string {
 	if ek == "decode" && q != nil && q.style == "router" {
 		ek = "text:900"
 	}
-	return fmt.Sprintf("%d/%s.%s/%d/%s/%s/%s", v.seq, v.path, v.method, v.ser, v.status, ek, pl)
+	rm := "-"
+	if t, ok := v.meta["trace-id"]; ok {
+		rm = t
+	}
+	return fmt.Sprintf("%d/%s.%s/%d/%s/%s/%s/rm=%s", v.seq, v.path, v.method, v.ser, v.status, ek, pl, rm)
 }
 
 func srvRunCase(o *common.Out, id string, nconn int, reqs []sreqCase, order []int, pool bool, viaClient bool) {
